@@ -36,8 +36,8 @@ def universal(text: str) -> str:
 class C20:
     PROPERTY = 'C20'
     TIERS = {
-        'quick': {'runs': 4500, 'wall_cap_s': 300, 'chunk': 30},
-        'thorough': {'runs': 110000, 'wall_cap_s': 1500, 'chunk': 40},
+        'quick': {'runs': 4500, 'wall_cap_s': 300, 'chunk': 30, 'opt_leg_runs': 250},
+        'thorough': {'runs': 110000, 'wall_cap_s': 1500, 'chunk': 40, 'opt_leg_runs': 1000},
     }
     RULE = ('a simulated file tree (<=8 input files in nested directories; LF/CRLF/mixed/CR line ends, final newline or not, BOM, '
             'non-ASCII lyrics, suffixes .krn .kern .ekrn .ekern .txt, names with several dots) and <=10 seeded operations: load (str/Path, '
